@@ -236,6 +236,7 @@ func (w *World) checkProperty(id, tier string, seed int, t0 time.Time, writeEvid
 		}
 	}
 	violations := 0
+	reportedFunc := map[string]bool{}
 	broken := 0
 	undecidedNew := 0
 	claimed, discharged := 0, 0
@@ -307,7 +308,13 @@ func (w *World) checkProperty(id, tier string, seed int, t0 time.Time, writeEvid
 		}
 		if unverifiable[o.Func] {
 			if inBase {
-				report(r, "function left the verified subset: "+strings.Join(pr.unsup[strings.TrimPrefix(o.Func, w.ModPath+"/go/")], "; "))
+				// one line per function whose contract no longer applies
+				if !reportedFunc[o.Func] {
+					reportedFunc[o.Func] = true
+					report(r, "function left the verified subset (all of its obligations are unproved): "+strings.Join(pr.unsup[strings.TrimPrefix(o.Func, w.ModPath+"/go/")], "; "))
+				} else {
+					violations++
+				}
 			} else {
 				notClaimed = append(notClaimed, o.Name+" (unverifiable)")
 			}
@@ -341,6 +348,14 @@ func (w *World) checkProperty(id, tier string, seed int, t0 time.Time, writeEvid
 	for _, m := range missing {
 		violations++
 		claimed++
+		fnOf := m
+		if i := strings.Index(m, "#"); i >= 0 {
+			fnOf = m[:i]
+		}
+		if reportedFunc["missing:"+fnOf] || reportedFunc[w.ModPath+"/go/"+fnOf] {
+			continue
+		}
+		reportedFunc["missing:"+fnOf] = true
 		os.MkdirAll(replayDir, 0755)
 		path := filepath.Join(replayDir, safeName(m)+".json")
 		data, _ := json.MarshalIndent(map[string]interface{}{"property": id, "obligation": m, "reason": "contract-level obligation of the baseline was not generated: the function under contract is gone, renamed, or its contract no longer resolves", "unsupported": pr.unsup}, "", " ")
